@@ -107,6 +107,8 @@ MOS = [
              precedes(RPC("delete"), call(r"= TieredEngine::get_metadata\(", name="engine.get_metadata (ownership check)"), call(r"= TieredEngine::delete\(", name="engine.delete")),
              precedes(RPC("update_metadata"), call(r"= TieredEngine::get_metadata\(", name="engine.get_metadata (ownership check)"), call(r"= TieredEngine::update_metadata\(", name="engine.update_metadata"))),
        functions=[("bin/kyrodb_server.rs", n) for n in ("query", "delete", "update_metadata")], target="kyrodb_server"),
+    MO("O10.5/cache_scope", "query_cache_scope: tenant index (when there is a tenant), namespace and filter (when present) are hashed into the scope on every path to finish()",
+       lambda F: cache_scope(F), functions=[("bin/kyrodb_server.rs", "query_cache_scope")], target="kyrodb_server"),
     MO("O10.4/ownership_test", "query / delete / update_metadata / bulk_query / build_search_response (search results): the ownership test compares the stored __tenant_idx__ with the caller's tenant index, the namespace test the stored namespace with the requested one, "
        "and the engine operation is unreachable from a mismatch of either",
        lambda F: allof(ownership_operands("query", r"= TieredEngine::query_with_source\("), ownership_operands("delete", r"= TieredEngine::delete\("),
@@ -200,6 +202,44 @@ def ownership_operands(name, engine_re, fname=None, loop_head=None, clears=False
 def short(t):
     from vlib.mirflow import short_ty
     return re.sub(r"::<[^>]*>$", "", short_ty(t or ""))
+
+
+def cache_scope(F):
+    """query_cache_scope: the scope under which a search result list is cached hashes (a) the caller's tenant index when there is
+    a tenant (a fixed sentinel otherwise), (b) the request's namespace, (c) the request's filter when present — each on every
+    path to `finish()`.  A scope that leaves one of them out lets a cached list answer another tenant's / namespace's / filter's
+    query.  (Collision-freeness of the 64-bit hash itself is not claimed.)"""
+    import vlib.mir as _M
+    from vlib.mirflow import origin as _o
+    f = "KyroDBServiceImpl::query_cache_scope"
+    fc = FnCheck(F, f)
+    if fc.fn is None:
+        return [fc.missing()]
+    fn = fc.fn
+    ti = field_index("bin/kyrodb_server.rs", "TenantContext", "tenant_index")
+    FIN = call(r"= <DefaultHasher as Hasher>::finish\(", name="hasher.finish()")
+
+    def hashed(rx_callee, rx_arg, name):
+        def also(f_, b, _t):
+            a = _M._split_top(b.args)
+            return bool(a) and re.search(rx_arg, _o(f_, a[0])) is not None
+        return Ev(rx_callee, kind="call", also=also, name=name)
+    TEN = hashed(r"= <u32 as Hash>::hash::<", r"TenantContext\)\}\)\.%d: u32\)$" % (ti if ti is not None else 1), "tenant.tenant_index.hash()")
+    NSP = hashed(r"= <String as Hash>::hash::<", r"SearchRequest\)\}\)\.\d+: String\)$", "req.namespace.hash()")
+    FLT = Ev(r"= <(Vec<u8>|String) as Hash>::hash::<", kind="call", also=lambda f_, b, _t: not re.search(r"SearchRequest\)\}\)\.\d+: String\)$", _o(f_, (_M._split_top(b.args) or [""])[0])), name="encoded filter .hash()")
+    out = []
+    T_SOME = Arm(r"^discr\(arg\(_2: Option<&TenantContext>\)\)$", {"1"}, name="tenant is Some")
+    F_SOME = Arm(r"^discr\(.*Option<(kyrodb_engine::proto::)?MetadataFilter>\)\}?\)\)$", {"1"}, name="req.filter is Some")
+    for ev, arm, what in ((TEN, T_SOME, "the tenant index"), (NSP, None, "the namespace"), (FLT, F_SOME, "the filter")):
+        if fc.count(ev) == 0:
+            r = fc.reachable(FIN)
+            out.append(Result("violated" if r.verdict == "holds" else "inconclusive", "query_cache_scope no longer hashes %s: cached search results are shared across it" % what, queries=r.queries, seconds=r.seconds,
+                              sample={"fn": fc.name, "kind": "PRECEDES", "A": ev.name, "B": FIN.name}))
+        elif arm is None:
+            out.append(fc.precedes(ev, FIN))
+        else:
+            out.append(fc.follows(arm, ev, exit="any", exit_ev=FIN))
+    return out
 
 
 def _per_item_mapped(F):
